@@ -4,6 +4,7 @@
 pub mod agent;
 pub mod c16;
 pub mod deps;
+pub mod incr;
 pub mod pty;
 
 use std::path::PathBuf;
